@@ -26,14 +26,14 @@ CLAIMED = {
                      "ValueAdapter.assign (missing value -> Replace(create) with the code of the new value), the recording clauses of the value classes; the end-to-end round trip "
                      "(X1 repr, X2 black, X10 tokenize) is covered by the bounded stand-in B-rt and reported separately.", note=STD_NOTE, ref="6 (C01), 12"),
     "C02": dict(text="_return/EqValue.__eq__ make the comparison succeed with the adapter result under create/fix (the test continues), ValueAdapter.assign replaces a differing leaf by the new "
-                     "value, the alignment kernels consume every element exactly once (no StopIteration); sequence/dict/call adapters are covered by the bounded stand-in B-rt.", note=STD_NOTE, ref="6 (C02), 12"),
+                     "value, the alignment kernels consume every element exactly once (no StopIteration); Adapter.get_adapter edits element-wise only for values of the same class (any other pair, subclass instances included, is replaced as a whole); the sequence / dict / call adapters are under contract (DESIGN 12.3), the constructor-argument extraction of the dataclass-like adapters is covered by the bounded stand-in B-rt.", note=STD_NOTE, ref="6 (C02), 12, 13"),
     "C03": dict(text="generic_sequence_update only replaces gaps between kept elements inside the braces (Q1/Q2), Replace.apply replaces exactly its own node, SourceFile.new_code is a plain splice when the "
-                     "file is not clean and no command is set, ensure_import inserts after docstring and leading imports; byte-level layout is covered by B-layout.", note=STD_NOTE, ref="6 (C03), 12"),
+                     "file is not clean and no command is set, ensure_import inserts after docstring and leading imports; the position helpers (start_of / end_of / range_of, SourcePosition.offset = character offset), Change.replace / insert / delete / _replace (exactly one replacement with exactly that range and text, checked after it is added), SourceFile._check (sorted replacements well-formed and disjoint, both directions) and ChangeRecorder.get_source (one SourceFile per path) are under contract; byte-level layout is covered by B-layout.", note=STD_NOTE, ref="6 (C03), 12, 13"),
     "C04": dict(text="Event-order contract on the real pytest_sessionfinish with havoc environment and an exception allowed at every call boundary: fix_all only on a recorder whose applied changes are all "
                      "approved (flag given or review answered y), nothing written under short-report / inactive / xdist / CI, removal only under approved trim; Example.run_inline applies exactly the "
-                     "update_flags categories; snapshot_check runs xfail tests inactive; snapshot() inactive returns its argument; Flags table complete. Real sessions in B-sess.", note=STD_NOTE, ref="6 (C04), 12"),
+                     "update_flags categories; snapshot_check runs xfail tests inactive, is_xfail is true iff an xfail marker applies at any level (function, class, module) and its condition is not False; snapshot() inactive returns its argument; Flags table complete. Real sessions in B-sess.", note=STD_NOTE, ref="6 (C04), 12"),
     "C08": dict(text="An update change never changes the value and is only pending when the tokens differ (UndecidedValue/MinMaxValue/ValueAdapter clauses); nothing pending for an untouched empty snapshot; "
-                     "the fixed-point over black/tokenize is covered by the bounded stand-in B-fixpoint.", note=STD_NOTE, ref="6 (C08), 12"),
+                     "the token functions of _utils keep no state between calls (syntactic frame condition, static table); SourceFile.diff compares the unmodified lines of old and new text; the fixed-point over black/tokenize is covered by the bounded stand-in B-fixpoint.", note=STD_NOTE, ref="6 (C08), 12, 13"),
     "C09": dict(text="One apply_all per recorder never edits a container twice (O6 on the real session hook), generic_sequence_update handles deletes next to inserts in one ordered edit, Flags.all iteration order; "
                      "all k! orders vs the combined run on real sessions in B-fixpoint.", note=STD_NOTE, ref="6 (C09), 12"),
     "C10": dict(text="ValueAdapter.assign returns the old object and emits nothing for Unmanaged values and f-strings; generic_sequence_update never touches a kept element; Replace.apply touches only its own node; "
@@ -41,18 +41,18 @@ CLAIMED = {
     "C12": dict(text="Per-character lemma discharged completely over all 1 112 064 code points x 3 closure states on the mechanically extracted escape_char (back end cpython-exhaustive/static-evaluation); "
                      "the composition literal_eval(generated literal) == s is bounded (B-str).", note=STD_NOTE, ref="6 (C12), 12"),
     "C13": dict(text="Session-level storage events on the real pytest_sessionfinish: persist precedes fix_all and happens only with an approved change, remove only under approved trim and never under "
-                     "short-report / inactive; histories of real sessions in B-sess. DiscStorage string obligations: see DESIGN section 12 for what is not yet under contract.", note=STD_NOTE, ref="6 (C13), 12"),
+                     "short-report / inactive; histories of real sessions in B-sess. DiscStorage.lookup_all / list return exactly the names of the stored files matching the reference / of all stored files (set comprehension semantics, glob as assumed contract), which are the callee contracts unused_externals is verified against; see DESIGN section 12/13 for what is not yet under contract.", note=STD_NOTE, ref="6 (C13), 12, 13"),
     "C15": dict(text="With an exception allowed at every call boundary: SourceFile.rewrite computes new_code before open (file old or complete on every exit), fix_all leaves no file truncated, "
                      "format_code degrades to the input text plus a problem on non-zero exit / missing black / black exception, the session state is popped exactly once and capture resumed on every path.",
                 note=STD_NOTE, ref="6 (C15), 12"),
     "C16": dict(text="format_code without black returns its input and reports a problem (layout only); determinism across hash seeds and formatter configurations is covered by the bounded stand-in B-seed "
                      "(sort_set_values is listed as not yet under contract).", note=STD_NOTE, ref="6 (C16), 12"),
     "C19": dict(text="Example.run_inline: applied set = changes whose flag is in update_flags, one apply_all + fix_all on a fresh recorder, state popped on every path -- the same event suffix as the plugin's "
-                     "final block; the three drivers are compared on real projects in B-drivers.", note=STD_NOTE, ref="6 (C19), 12"),
+                     "final block; SourceFile.diff / virtual_write and ChangeRecorder.virtual_write (the preview the plugin decides on: compares unmodified lines, writes nothing to disk) are under contract; the three drivers are compared on real projects in B-drivers.", note=STD_NOTE, ref="6 (C19), 12, 13"),
     "C20": dict(text="SourceFile.new_code gate: not clean and no format-command => result is the plain splice (no whole-file formatting); clean or enforced => result is formatter output of the splice "
                      "(clean afterwards iff black is idempotent, X15); file_mode_for_path maps the four pyproject options exactly; B-layout checks real files.", note=STD_NOTE, ref="6 (C20), 12"),
     "C18": dict(text="All safety obligations (index in range, attribute defined, next() not exhausted, asserts, no undeclared exception) and termination measures of the functions under contract on the "
-                     "collect/apply path; emitted replacement ranges of generic_sequence_update are well-formed, ordered and disjoint.", note=STD_NOTE, ref="6 (C18), 12"),
+                     "collect/apply path; emitted replacement ranges of generic_sequence_update are well-formed, ordered and disjoint; SourceFile._check returns normally iff the sorted replacements are well-formed and pairwise adjacent-disjoint (loop invariants over a sort model), range_of raises ValueError exactly for an inverted range.", note=STD_NOTE, ref="6 (C18), 12, 13"),
     "C11": dict(
         text="Proof obligations over the real alignment kernels (align, nw_align, add_x): script validity, every 'm' pairs equal elements, "
              "equal common prefix/suffix kept, consumption counts; all loops by inductive invariants (unbounded), termination by decreasing measures.",
